@@ -128,6 +128,13 @@ Definition cnt (st : strategy) (pr : params) (ps : list prov) (inb : N -> bool) 
 Definition maj_thr (st : strategy) (pr : params) : Z :=
   match template_of st with TMajAtt => Z.of_N (p_threshold pr) | _ => 0%Z end.
 
+(* does a return at instant [ot] precede the majority strategy's decision point (block root: the
+   soft timeout, at which it settles for what it has; attestation data: the hard timeout, its soft
+   timeout decides nothing)?  Then the value used must already be final: the most frequently
+   reported of all the acceptable answers given within the timeout. *)
+Definition maj_final (tp : template) (T ot : N) : bool :=
+  match tp with TMajAtt => true | _ => ot <? T / 2 end.
+
 (* the content a node returns has the type the strategy's interface fixes *)
 Definition raw_family (st : strategy) (r : raw) : bool :=
   match st, r with
